@@ -347,11 +347,20 @@ func facts() []program {
 		{Name: "go/args-from-typed-slot", Src: "out = make(chan interface, 1)\nxs = make([]int64, 1)\ngo func(a) { out <- a }(xs[0])\nxs[0] = 99\n<-out", Expect: render(int64(0)), Bound: -1},
 		{Name: "go/args-from-typed-slot-reflect-path", Src: "out = make(chan interface, 1)\nxs = make([]int64, 2)\ngo func(a, b, c, d, e) { out <- [a, e] }(xs[0], 0, 0, 0, xs[1])\nxs[0] = 99\nxs[1] = 98\n<-out", Expect: render([]interface{}{int64(0), int64(0)}), Bound: -1},
 		{Name: "go/args-from-struct-field", Src: "out = make(chan interface, 1)\nst = make(struct { A int64 })\nst.A = 5\nfunc f(a) { out <- a }\ngo f(st.A)\nst.A = 6\n<-out", Expect: render(int64(5)), Bound: -1},
+		{Name: "fact/send-converts-to-named-element-type", Src: "c = make(chan Dur, 1)\nc <- 5\n<-c", Expect: render(time.Duration(5)), Bound: -1},
+		{Name: "fact/send-converts-named-value-to-int64", Src: "d = make(Dur)\nc = make(chan int64, 1)\nc <- d\n<-c", Expect: render(int64(0)), Bound: -1},
+		{Name: "fact/pipeline-of-named-element-type", Src: "c = make(chan Dur, 1)\nout = make(chan interface, 2)\ngo func() { for v in [1, 2] { c <- v }; close(c) }()\nr = []\nfor v in c { r += [v] }\nr", Expect: render([]interface{}{time.Duration(1), time.Duration(2)}), Bound: -1},
 		{Name: "go/runs-concurrently", Src: "a = make(chan int64)\nb = make(chan int64)\ngo func() { a <- 1; v, ok = <-a; b <- v + 1 }()\nx = <-a\na <- x + 10\n<-b", Expect: render(int64(12)), Bound: -1},
 	}
 }
 
-func newEnv() *env.Env { return env.NewEnv() }
+func newEnv() *env.Env {
+	e := env.NewEnv()
+	// a named scalar type (same kind as int64, another type): "converted to the
+	// channel's element type" also when only the type, not the kind, differs
+	e.DefineType("Dur", time.Duration(0))
+	return e
+}
 
 func cfgFor(p program, record bool) vmrun.Config {
 	cfg := vmrun.Config{Fuel: 600, MaxSteps: 4000, Record: record}
@@ -495,16 +504,27 @@ func plainEntry(res *common.Result) {
 			continue
 		}
 		var o vmrun.Outcome
-		func() {
+		done := make(chan vmrun.Outcome, 1)
+		go func() {
+			var r vmrun.Outcome
 			defer func() {
-				if r := recover(); r != nil {
-					o.Panic = fmt.Sprint(r)
+				if x := recover(); x != nil {
+					r.Panic = fmt.Sprint(x)
 				}
+				done <- r
 			}()
-			o.Val, o.Err = vm.Execute(newEnv(), nil, p.Src)
+			r.Val, r.Err = vm.Execute(newEnv(), nil, p.Src)
 		}()
-		o.Verdict = sched.OK
-		o.Returned = true
+		select {
+		case o = <-done:
+			o.Verdict = sched.OK
+			o.Returned = true
+		case <-time.After(30 * time.Second):
+			// these programs take microseconds; the scheduler-driven phase decides
+			// deadlocks exhaustively, this is the guard that keeps the worker alive
+			o.Verdict = sched.Deadlock
+			o.Blocked = []string{"vm.Execute did not return within 30 s"}
+		}
 		res.Add("plain_entry_runs", 1)
 		if cl, d := check(p, o); cl != "" {
 			res.Violate(common.Violation{Class: cl + "/plain-entry/" + strings.SplitN(p.Name, "/", 2)[0], Case: "vm.Execute: " + p.Name + "\n" + p.Src, Detail: d, Replay: replayData{Program: p}})
